@@ -108,6 +108,8 @@ void hazard_eras<Traits>::guard_ptr<T, MarkedPtr>::acquire(const concurrent_ptr<
       }
       he->release_guard();
       he = nullptr;
+      // the guard no longer protects anything; if alloc_hazard_era throws it must not keep the old pointer
+      this->ptr.reset();
     }
     assert(he == nullptr);
     he = local_thread_data().alloc_hazard_era(era);
@@ -143,6 +145,7 @@ bool hazard_eras<Traits>::guard_ptr<T, MarkedPtr>::acquire_if_equal(const concur
       he->release_guard();
       // alloc_hazard_era may throw -> we must not keep a reference to the released hazard era
       he = nullptr;
+      this->ptr.reset();
     }
 
     he = local_thread_data().alloc_hazard_era(era);
